@@ -14,26 +14,81 @@ def step_line(e):
     return "%s %s = %s %s" % (e["op"], " ".join(tok(a) for a in e["args"]), tok(e["ret"]), tok(e["post"]))
 
 
+class _EdgeView:
+    """g.edges[i] -> (pre_key, post_key, edge_dict); edge dicts are rebuilt on demand (memory: millions of edges)."""
+
+    def __init__(self, g):
+        self.g = g
+
+    def __len__(self):
+        return len(self.g._pre)
+
+    def __getitem__(self, i):
+        g = self.g
+        return (g.keys[g._pre[i]], g.keys[g._post[i]], g.edict(i))
+
+
 class Graph:
+    """Compact storage: node keys are interned tokens; an edge is (pre id, post id, 'op args = ret')."""
+
     def __init__(self):
+        from array import array
         self.out = defaultdict(list)    # node key -> [edge index]
-        self.edges = []                 # (prekey, postkey, edge dict)
-        self.nodes = {}                 # key -> state value
+        self.keys = []                  # node id -> token
+        self.ids = {}                   # token -> node id
+        self._pre = array("l")
+        self._post = array("l")
+        self._head = []                 # "op args = ret"
         self._seen = set()
+        self.edges = _EdgeView(self)
+
+    @property
+    def nodes(self):
+        return self.ids
+
+    def _nid(self, k):
+        i = self.ids.get(k)
+        if i is None:
+            i = len(self.keys)
+            self.ids[k] = i
+            self.keys.append(k)
+        return i
 
     def add(self, e):
         pk, qk = tok(e["pre"]), tok(e["post"])
-        sig = (pk, e["op"], tok(e["args"]), tok(e["ret"]), qk)
+        head = "%s %s = %s" % (e["op"], " ".join(tok(a) for a in e["args"]), tok(e["ret"]))
+        p, q = self._nid(pk), self._nid(qk)
+        sig = hash((p, head, q))
         if sig in self._seen:
             return
         self._seen.add(sig)
-        self.nodes.setdefault(pk, e["pre"])
-        self.nodes.setdefault(qk, e["post"])
-        self.out[pk].append(len(self.edges))
-        self.edges.append((pk, qk, e))
+        self.out[self.keys[p]].append(len(self._pre))
+        self._pre.append(p)
+        self._post.append(q)
+        self._head.append(head)
 
     def n_edges(self):
-        return len(self.edges)
+        return len(self._pre)
+
+    def pre_key(self, i):
+        return self.keys[self._pre[i]]
+
+    def post_key(self, i):
+        return self.keys[self._post[i]]
+
+    def is_loop(self, i):
+        return self._pre[i] == self._post[i]
+
+    def line(self, i):
+        return self._head[i] + " " + self.keys[self._post[i]]
+
+    def edict(self, i):
+        from .core import untok
+        head = self._head[i]
+        left, ret = head.rsplit(" = ", 1)
+        w = left.split(" ")
+        return {"pre": untok(self.keys[self._pre[i]]), "post": untok(self.keys[self._post[i]]), "op": w[0],
+                "args": [untok(x) for x in w[1:] if x != ""], "ret": untok(ret)}
 
 
 class LevelPlanner:
@@ -66,8 +121,8 @@ class LevelPlanner:
         self.pending = {}
         for u in self.frontier:
             pre = self.path[u]
-            loops = [i for i in self.g.out[u] if self.g.edges[i][1] == u]
-            moves = [i for i in self.g.out[u] if self.g.edges[i][1] != u]
+            loops = [i for i in self.g.out[u] if self.g.is_loop(i)]
+            moves = [i for i in self.g.out[u] if not self.g.is_loop(i)]
             if self.chain_loops:
                 for c in range(0, len(loops), self.max_chain):
                     scripts.append(self._mk(pre, loops[c:c + self.max_chain]))
@@ -104,7 +159,7 @@ class LevelPlanner:
         # extend the tree with verified moves
         for u in self.frontier:
             for i in self.g.out[u]:
-                pk, qk, _ = self.g.edges[i]
+                qk = self.g.post_key(i)
                 if i in self.verified and qk not in self.path:
                     self.path[qk] = self.path[u] + [i]
                     nxt.append(qk)
@@ -128,10 +183,10 @@ class LevelPlanner:
                 if not c:
                     break
                 # prefer state-changing edges 3:1 so walks travel
-                mv = [i for i in c if self.g.edges[i][1] != u]
+                mv = [i for i in c if not self.g.is_loop(i)]
                 i = rnd.choice(mv) if (mv and rnd.random() < 0.75) else rnd.choice(c)
                 steps.append(i)
-                u = self.g.edges[i][1]
+                u = self.g.post_key(i)
             self.sid += 1
             res.append(Script(self.sid, [], steps))
         return res
@@ -148,8 +203,12 @@ class Script:
 
     def text(self, g, line=step_line):
         out = ["S %d" % self.sid]
-        for i in self.prefix + self.targets:
-            out.append(line(g.edges[i][2]))
+        if line is step_line:
+            for i in self.prefix + self.targets:
+                out.append(g.line(i))
+        else:
+            for i in self.prefix + self.targets:
+                out.append(line(g.edict(i)))
         out.append("E")
         return "\n".join(out) + "\n"
 
@@ -157,4 +216,4 @@ class Script:
         ix = self.prefix + self.targets
         if upto is not None:
             ix = ix[:upto + 1]
-        return [step_line(g.edges[i][2]) for i in ix]
+        return [g.line(i) for i in ix]
